@@ -42,6 +42,7 @@ type ValidateOpts struct {
 	DFS       bool
 	Parallel  int
 	Timeout   time.Duration
+	NoCount   bool                 // diagnostic pass: do not count in the evidence
 	Tags      func(tag, js string) // other tagged lines printed by the trace spec (e.g. BLAME)
 }
 
@@ -129,8 +130,10 @@ func (c *Ctx) ValidateTraces(traces []*Trace, o ValidateOpts) []Rejection {
 		}(ch.ts)
 	}
 	wg.Wait()
-	c.Add("trace_events_validated", events)
-	c.Add("traces_validated_against_impl", validated)
+	if !o.NoCount {
+		c.Add("trace_events_validated", events)
+		c.Add("traces_validated_against_impl", validated)
+	}
 	return rej
 }
 
